@@ -200,6 +200,16 @@ def _mc_receive_queue_ok():
     return "true" if ok else "false"
 
 
+@fact("xspec_eq_by_text", "bool", "false")
+def _xspec_eq_by_text():
+    """XSpec compares and hashes by its text alone (attributes set later -- id, execmodel by Group.makegateway -- do not take part)"""
+    ok = [_src(n) for n in _body_nodoc(find("xspec.py", "XSpec.__hash__"))] == ["return hash(self._spec)"]
+    ok = ok and [_src(n) for n in _body_nodoc(find("xspec.py", "XSpec.__eq__"))] == ["return self._spec == getattr(other, '_spec', None)"]
+    ok = ok and [_src(n) for n in _body_nodoc(find("xspec.py", "XSpec.__ne__"))] == ["return self._spec != getattr(other, '_spec', None)"]
+    ok = ok and [_src(n) for n in _body_nodoc(find("xspec.py", "XSpec.__str__"))] == ["return self._spec"]
+    return "true" if ok else "false"
+
+
 @fact("grp_lookup_ok", "bool", "false")
 def _grp_lookup_ok():
     """Group lookup: an int indexes the member list, anything else scans it for the member that IS the key (gateway objects
@@ -478,6 +488,22 @@ def _loader_errors_typed():
                 if h.type is not None and unparse(h.type) == "Exception" and _raises(ast.Module(body=h.body, type_ignores=[]), "LoadError"):
                     return "true"
     return "false"
+
+
+@fact("ser_int_text_ok", "bool", "false")
+def _ser_int_text_ok():
+    """big ints travel as their decimal text, produced and read by the interpreter's own int <-> str conversion in ONE piece
+    (no chunking, no caching): _save_integral writes str(i) (py2 'L' suffix stripped) as a byte sequence, load_longint is
+    int(<the byte string>), LONGLONG shares it"""
+    sv = [_src(n) for n in _body_nodoc(find("gateway_base.py", "_Serializer._save_integral"))]
+    ok = sv == ["if -FOUR_BYTE_INT_MAX - 1 <= i <= FOUR_BYTE_INT_MAX:\n    self._write(short_op)\n    self._write_int4(i)\nelse:\n    self._write(long_op)\n    self._write_byte_sequence(str(i).rstrip('L').encode('ascii'))"]
+    ld = [_src(n) for n in _body_nodoc(find("gateway_base.py", "Unserializer.load_longint"))]
+    ok = ok and ld == ["s = self._read_byte_string()", "self.stack.append(int(s))"]
+    cls = _src(find("gateway_base.py", "Unserializer"))
+    ok = ok and "load_longlong = load_longint" in cls
+    fl = [_src(n) for n in _body_nodoc(find("gateway_base.py", "_Serializer.save_float"))]
+    ok = ok and fl == ["self._write(opcode.FLOAT)", "self._write(struct.pack(FLOAT_FORMAT, flt))"]
+    return "true" if ok else "false"
 
 
 @fact("ser_stateless_dispatch", "bool", "false")
@@ -1495,6 +1521,10 @@ def _term_terminate_ok():
     ok = ok and len(kill) == 1 and [_src(x) for x in _Strip().visit(__import__("copy").deepcopy(kill[0])).body] == ["gw._io.kill()"]
     e = _src(_Strip().visit(__import__("copy").deepcopy(find("gateway.py", "Gateway.exit"))))
     ok = ok and "if self not in self._group:\n        return" in e and "self._group._unregister(self)\n    try:\n        self._send(Message.GATEWAY_TERMINATE)\n        self._io.close_write()\n    except (ValueError, EOFError, OSError) as exc:" in e
+    # ... and the handler of a failed exit request does nothing but trace: the gateway STAYS in the to-join list and is killed after the time-out
+    ex = find("gateway.py", "Gateway.exit")
+    hs = [h for n in ast.walk(ex) if isinstance(n, ast.Try) for h in n.handlers]
+    ok = ok and len(hs) == 1 and [_src(x) for x in _Strip().visit(__import__("copy").deepcopy(hs[0])).body] in ([], ["pass"])
     u = _src(find("multi.py", "Group._unregister"))
     ok = ok and "self._gateways.remove(gateway)" in u and "self._gateways_to_join.append(gateway)" in u
     ok = ok and "self.popen.kill()" in _src(find("gateway_io.py", "Popen2IOMaster.kill")) and "return self.popen.wait()" in _src(find("gateway_io.py", "Popen2IOMaster.wait"))
